@@ -370,6 +370,17 @@ func (ex *Exec) Run() (err error) {
 	// the executor - or a contract it applied - has assumed that code away; its obligations would
 	// be missing without anyone noticing. Blocks that only panic are expected to be unreachable.
 	var unreached []string
+	typeSwitch := false
+	for _, b := range fn.Blocks {
+		for _, in := range b.Instrs {
+			if _, ok := in.(*ssa.TypeAssert); ok {
+				typeSwitch = true // an instantiated type switch has dead cases by construction
+			}
+		}
+	}
+	if typeSwitch {
+		return nil
+	}
 	for _, b := range fn.Blocks {
 		if ex.visited[b] || len(b.Preds) == 0 && b != fn.Blocks[0] {
 			continue
